@@ -375,6 +375,52 @@ theorem C09_source_containers :
     (drivers.filter fun d => d.container == Container.positional).map (fun d => (d.module, d.name))
       = [("scan", "steady_state"), ("mc", "steady_state")] := by decide
 
+/-! ### the placeholder grids of the CURRENT source are the grids of successful runs -/
+
+section
+open Mxl.Generated.C09
+
+/-- the placeholder grid of the time-course worker, as the source computes it, IS the time index of a successful run -/
+theorem C09_source_placeholder_time_course (tps : List Rat) : tcPlaceholder tps = tcIndex tps := by
+  unfold tcPlaceholder tcIndex tcGrid
+  have hf : tps.filter tcKeeps = tps.filter (fun t => decide (0 ≤ t)) := by
+    apply List.filter_congr
+    intro t _
+    simp [tcKeeps, GE.ge]
+  simp only [hf, tcStart]
+  cases tps.filter (fun t => decide (0 ≤ t)) with
+  | nil => simp
+  | cons a r =>
+    by_cases h : a = 0
+    · simp [h]
+    · simp [h]
+
+/-- … and so is the protocol worker's (`time_points_per_step > 0`, a protocol with at least one step) -/
+theorem C09_source_placeholder_protocol (proto : Protocol) (steps : Nat) (hs : 0 < steps) (hp : proto ≠ []) :
+    protoPlaceholder linspace steps (proto.map (·.1)) = protoIndex steps 0 true proto := by
+  cases proto with
+  | nil => exact absurd rfl hp
+  | cons s rest =>
+    simp only [protoPlaceholder, protoStart, List.map_cons, protoSteps, protoIndex, protoPoints, protoDrop,
+      protoSteps_eq steps rest s.1, if_true]
+    have hh := linspace_succ_head 0 s.1 steps hs
+    cases hg : linspace 0 s.1 (steps + 1) with
+    | nil => rw [hg] at hh; simp at hh
+    | cons a r =>
+      rw [hg] at hh
+      simp at hh
+      subst hh
+      simp
+
+/-- … and the protocol + time points worker's: the start, then the union of protocol ends and requested points that lies
+    in `(0, T_end]` (`joinOuter` = `np.union1d`) -/
+theorem C09_source_placeholder_ptc (proto : Protocol) (tps : List Rat) :
+    ptcIndex proto tps =
+      ptcStart :: (joinOuter (proto.map (·.1)) tps).filter fun t => ptcKeeps t ((proto.getLast?.map (·.1)).getD 0) := by
+  simp only [ptcIndex, ptcStart, ptcKeeps, GT.gt]
+
+end
+
 /-! ### why the per-row copy is needed (the code before the fix) -/
 
 def wContent : Content :=
